@@ -2,11 +2,13 @@
 \* included), timestamps in 1..2, every change valid (delegate or guest author).
 CONSTANTS
   Atomic = TRUE
+  DropDetached = TRUE
   Namespace = {1}
   M = 3
   MaxTs = 2
   Classes = {"ok", "guest"}
   MaxBad = 3
+  AllowDetached = FALSE
   Emit = TRUE
   EmitMod = 1
 INIT InitGraphs
